@@ -84,7 +84,7 @@ fn c01_nontrivial(seq: &[u8], k: usize) -> bool {
 
 pub fn c01(ctx: &mut Ctx) {
     // (1) small scope
-    let l = ctx.pick(8, 11);
+    let l = ctx.pick(8, 12);
     let kmax_small = ctx.pick(31, 12);
     let mut n_small = 0u64;
     {
@@ -340,7 +340,7 @@ pub fn c02_stream(ctx: &mut Ctx, seq: &[u8], k: usize) {
 
 pub fn c02(ctx: &mut Ctx) {
     // (a) every code for small k
-    let kmax = ctx.pick(10, 13);
+    let kmax = ctx.pick(10, 14);
     let mut sh = ctx.shard;
     let mut n = 0u64;
     for k in 1..=kmax {
@@ -403,7 +403,7 @@ pub fn c02(ctx: &mut Ctx) {
     ctx.rep.count("cases.code_family", nf);
     ctx.rep.nontrivial += nf;
     // (c) stream symmetry
-    let l = ctx.pick(8, 10);
+    let l = ctx.pick(8, 11);
     let mut sh = ctx.shard;
     let mut ns = 0u64;
     let mut todo: Vec<Vec<u8>> = Vec::new();
@@ -549,7 +549,7 @@ pub fn minimiser_spaces(ctx: &mut Ctx, which: u32) {
         }
     };
     // (1) small scope: all S5 strings, all pairs m <= w <= 5
-    let l = ctx.pick(9, 11);
+    let l = ctx.pick(9, 12);
     let mut pairs = Vec::new();
     for w in 1..=5usize {
         for m in 1..=w {
@@ -563,7 +563,7 @@ pub fn minimiser_spaces(ctx: &mut Ctx, which: u32) {
     let mut do_block = |ctx: &mut Ctx, todo: &mut Vec<Vec<u8>>| {
         for s in todo.drain(..) {
             for &(w, m) in &pairs {
-                if ctx.thorough() && w == 5 && s.len() > 10 {
+                if ctx.thorough() && ((w == 5 && s.len() > 10) || (w == 4 && s.len() > 11)) {
                     continue;
                 }
                 run(ctx, "small-scope", &s, w, m);
